@@ -2284,10 +2284,20 @@ class PyCdlib:
                 # location of the GPT Header, which is *after* the backup
                 # partition information, so we first parse that, then go find
                 # out how many more partitions we need to parse.
-                self._cdfp.seek(tmp_isohybrid.primary_gpt.header.backup_lba * 512)
+                # Both locations come from 64-bit fields on the ISO, so make
+                # sure they are inside of the ISO before seeking to them.
+                iso_end = self._get_iso_size()
+
+                backup_offset = tmp_isohybrid.primary_gpt.header.backup_lba * 512
+                if backup_offset > iso_end:
+                    raise pycdlibexception.PyCdlibInvalidISO('Backup GPT header is beyond the end of the ISO')
+                self._cdfp.seek(backup_offset)
                 tmp_isohybrid.parse_secondary_gpt_header(self._cdfp.read(512))
 
-                self._cdfp.seek((tmp_isohybrid.secondary_gpt.header.current_lba * 512) - (tmp_isohybrid.secondary_gpt.header.num_parts * 128))
+                parts_offset = (tmp_isohybrid.secondary_gpt.header.current_lba * 512) - (tmp_isohybrid.secondary_gpt.header.num_parts * 128)
+                if parts_offset < 0 or parts_offset > iso_end:
+                    raise pycdlibexception.PyCdlibInvalidISO('Backup GPT partition entries are outside of the ISO')
+                self._cdfp.seek(parts_offset)
                 tmp_isohybrid.parse_secondary_gpt_partitions(self._cdfp.read(tmp_isohybrid.secondary_gpt.header.num_parts * 128))
 
             # We only save the object if it turns out to be a valid IsoHybrid.
@@ -4205,7 +4215,7 @@ class PyCdlib:
         self._managing_fp = True
         try:
             self._open_fp(fp)
-        except (struct.error, IndexError, KeyError, ValueError, ZeroDivisionError) as e:
+        except (struct.error, IndexError, KeyError, ValueError, ZeroDivisionError, OverflowError) as e:
             # The data on the ISO led the parser astray.
             fp.close()
             raise pycdlibexception.PyCdlibInvalidISO('Failed to parse ISO: %s' % (str(e)))
@@ -4236,7 +4246,7 @@ class PyCdlib:
 
         try:
             self._open_fp(fp)
-        except (struct.error, IndexError, KeyError, ValueError, ZeroDivisionError) as e:
+        except (struct.error, IndexError, KeyError, ValueError, ZeroDivisionError, OverflowError) as e:
             # The data on the ISO led the parser astray.
             raise pycdlibexception.PyCdlibInvalidISO('Failed to parse ISO: %s' % (str(e)))
 
